@@ -1,7 +1,10 @@
-"""Positive controls: tiny synthetic violating inputs each zero-expected rule must flag."""
+"""Positive controls: tiny synthetic violating inputs that the engines' rules must flag.
+Run by MANIFEST.setup_cmd and by the thorough tier; a control that does not fire is exit 2.
+A rule whose expected violation count on the real tree is zero would otherwise pass
+vacuously forever."""
 from __future__ import annotations
 
-CONTROLS = []  # (name, callable returning True when the rule fired)
+CONTROLS = []
 
 
 def control(name):
@@ -11,7 +14,137 @@ def control(name):
     return deco
 
 
-def run_controls(verbose=False) -> list[str]:
+def _ctx_with(name, text):
+    from .ctx import Ctx
+    from .source import add_virtual
+    ctx = Ctx()
+    add_virtual(ctx.sm, name, text)
+    return ctx
+
+
+def _paths(ctx, modname, fname, nargs=1, direction=None, value_type=None):
+    from .values import StreamV, Sym
+    P = ctx.plans
+    f = P.I.module(modname).env.vars[fname]
+    args = [StreamV("param")]
+    if nargs == 2:
+        args.append(Sym(("param", "value"), "int", lo=0, hi=255))
+    P.A.paths(f, args, direction=direction)
+    return P.A
+
+
+@control("E4: reader using an unchecked raw read is logged as unchecked-used")
+def c_unchecked_read():
+    ctx = _ctx_with("kio.serial._ctl_r1", "def reader(buffer):\n    return buffer.read(4)\n")
+    A = _paths(ctx, "kio.serial._ctl_r1", "reader")
+    return any(k[1] == "read" and "unchecked-used" in k[4] for k in A.log)
+
+
+@control("E4: reader calling read() without a size is logged")
+def c_unsized_read():
+    ctx = _ctx_with("kio.serial._ctl_r2", "def reader(buffer):\n    return buffer.read()\n")
+    A = _paths(ctx, "kio.serial._ctl_r2", "reader")
+    return any(k[1] == "read" and "size=None" in k[4] for k in A.log)
+
+
+@control("E4: writer calling seek on the sink is logged")
+def c_writer_seek():
+    ctx = _ctx_with("kio.serial._ctl_w1", "def writer(buffer, value):\n    buffer.seek(0)\n    buffer.write(bytes([value]))\n")
+    A = _paths(ctx, "kio.serial._ctl_w1", "writer", nargs=2)
+    return any(k[1] == "seek" and k[2] == "param" for k in A.log)
+
+
+@control("E4: closure mutating a captured list is logged as pre-existing mutation")
+def c_captured_mutation():
+    src = "def factory():\n    seen = []\n    def reader(buffer):\n        seen.append(1)\n        return buffer.read(0)\n    return reader\n"
+    ctx = _ctx_with("kio.serial._ctl_c1", src)
+    from .interp_base import Run
+    from .values import StreamV
+    P = ctx.plans
+    f = P.I.call(P.I.module("kio.serial._ctl_c1").env.vars["factory"], [], {}, Run(), None)
+    P.A.paths(f, [StreamV("param")])
+    return any(k[1] == "mutate" and "pre-existing" in k[4] for k in P.A.log)
+
+
+@control("E5: lookup keyed by wire data without a miss arm raises KeyError in the may-raise set")
+def c_tainted_lookup():
+    src = ("from kio.serial.readers import read_int8\nTABLE = {1: 'a', 2: 'b'}\n"
+           "def reader(buffer):\n    return TABLE[read_int8(buffer)]\n")
+    ctx = _ctx_with("kio.serial._ctl_e1", src)
+    A = _paths(ctx, "kio.serial._ctl_e1", "reader")
+    return any(k[1] == "KeyError" for k in A.raises)
+
+
+@control("E5: handler swallowing BufferUnderflow is found by the handler scan")
+def c_handler():
+    src = ("from kio.serial.readers import read_exact\nfrom kio.serial.errors import SerialError\n"
+           "def reader(buffer):\n    try:\n        return read_exact(buffer, 2)\n    except SerialError:\n        return None\n")
+    ctx = _ctx_with("kio.serial._ctl_h1", src)
+    from . import scan
+    I = ctx.interp
+    bu = I.module("kio.serial.errors").env.vars["BufferUnderflow"]
+    hs = scan.handlers(ctx, ["kio.serial._ctl_h1"])
+    return any(scan.catches(I, h, bu) and not h["reraises_same"] for h in hs)
+
+
+@control("E4: module-level mutable state is found by the state scan")
+def c_module_state():
+    ctx = _ctx_with("kio.serial._ctl_s1", "_cache = {}\ndef f(x):\n    global _n\n    _n = x\n    _cache[x] = 1\n")
+    from . import scan
+    kinds = {s["kind"] for s in scan.module_state(ctx, ["kio.serial._ctl_s1"])}
+    return {"module-mutable", "global", "nonlocal-store"} <= kinds
+
+
+@control("E6: replace(microsecond=0) on a millisecond decode path is T-gran")
+def c_tgran():
+    from . import timeflow
+    conv = ["replace", ["fromtimestamp", [["div", ["X"], ["k", 1000]], ["k", "utc"]]], [["microsecond", ["k", 0]]]]
+    q, issues = timeflow.read_side(conv, 64, "timestamp")
+    return any(i[0] == "T-gran" for i in issues)
+
+
+@control("E6: int(float * 1000) on an encode path is T-trunc; float on a 64-bit duration is T-float64")
+def c_ttrunc():
+    from . import timeflow
+    q, i1 = timeflow.write_side(["int", ["mul", ["timestamp", ["X"]], ["k", 1000]]], 64, "timestamp")
+    q, i2 = timeflow.write_side(["round", ["mul", ["total_seconds", ["X"]], ["k", 1000]]], 64, "duration")
+    q, i3 = timeflow.write_side(["round", ["mul", ["total_seconds", ["X"]], ["k", 1000]]], 32, "duration")
+    return any(i[0] == "T-trunc" for i in i1) and any(i[0] == "T-float64" for i in i2) and not i3
+
+
+@control("BV: zig-zag with a wrong shift is rejected, the canonical pair is accepted")
+def c_zigzag():
+    from . import varint
+    X = ("X",)
+    enc = lambda s: ("xor", ("shl", X, ("k", 1)), ("shr", X, ("k", s)))
+    dec = ("xor", ("shr", X, ("k", 1)), ("neg", ("and", X, ("k", 1))))
+    return not varint.check_zigzag(enc(31), dec, 32) and bool(varint.check_zigzag(enc(30), dec, 32))
+
+
+@control("E3: a little-endian writer differs from the big-endian spec row")
+def c_spec_cmp():
+    from .grammar import cmp_writer, spec_primitive
+    w = {"k": "scalar", "prefix": {"k": "fixed", "fmt": "<h"}, "conv": "identity", "null": None}
+    return bool(cmp_writer(w, spec_primitive("int16", False, False))) and not cmp_writer(
+        {"k": "scalar", "prefix": {"k": "fixed", "fmt": ">h"}, "conv": "identity", "null": None}, spec_primitive("int16", False, False))
+
+
+@control("E2: a native TypeError on an abstract value is never taken for behaviour (soundness regression)")
+def c_native_soundness():
+    src = "def writer(buffer, value):\n    buffer.write(bytes((value + 1,)))\n"
+    ctx = _ctx_with("kio.serial._ctl_n1", src)
+    from .values import StreamV, Sym
+    P = ctx.plans
+    f = P.I.module("kio.serial._ctl_n1").env.vars["writer"]
+    ps = P.A.paths(f, [StreamV("param"), Sym(("param", "value"), "int", lo=0, hi=100)])
+    return len(ps) == 1 and ps[0].outcome == "return"
+
+
+FAST_MUTANTS = ["M12-stale-index-entry", "M13-generator-apiversions-key", "M16-batch-length-off-by-one", "M17-crc-region-short",
+                "M25-eq-false-on-record", "M27-version-family-gap", "M29-i16-high-off-by-one"]
+
+
+def run_controls(verbose=False, with_mutants=True) -> list[str]:
     missed = []
     for name, fn in CONTROLS:
         try:
@@ -21,6 +154,16 @@ def run_controls(verbose=False) -> list[str]:
             name = f"{name} (crashed: {type(e).__name__}: {e})"
         if not ok:
             missed.append(name)
+    n = len(CONTROLS)
+    if with_mutants:
+        from .corpus import MUTANTS
+        from .selftest import run_variant
+        for m in MUTANTS:
+            if m["id"] in FAST_MUTANTS:
+                n += 1
+                r = run_variant(m, "mutant")
+                if not r["ok"]:
+                    missed.append(f"mutant {m['id']}: {r.get('why')}")
     if verbose:
-        print(f"controls: {len(CONTROLS) - len(missed)}/{len(CONTROLS)} fired")
+        print(f"controls: {n - len(missed)}/{n} fired")
     return missed
